@@ -23,11 +23,12 @@ def result_class(ip, st, ret):
 
 
 def run(ctx):
-    ctx.rule("R-C18-INV", "0 <= num_elements <= N is an inductive object invariant (all fields private, who-may-write = the impl)")
+    ctx.rule("R-C18-INV", "0 <= len <= N is an inductive object invariant, where len is the length of the slice Deref::deref exposes "
+                          "(all fields private, who-may-write = the impl)")
     ctx.rule("R-C18-EFFECT", "per-operation effect summaries of push/extend_from_slice/truncate/clear/deref equal the ideal bounded "
-                             "vector: success condition, written range and values, new length, no write on failure")
-    ctx.rule("R-C18-VIEW", "PartialEq and Debug look at the buffer only through Deref (the logical prefix)")
-    ctx.rule("R-C18-FROMITER", "FromIterator pushes every item exactly once, in order")
+                             "vector, stated over the Deref view: success condition, written range and values, new length, no write on failure")
+    ctx.rule("R-C18-VIEW", "PartialEq and Debug look at the buffer only through the Deref view (or a private function proved to return the same view)")
+    ctx.rule("R-C18-FROMITER", "FromIterator writes every item exactly once, in order, at the end of the buffer")
     ctx.rule("R-C18-VEC", "the Vec<u8> Buffer impl reserves fallibly before every write and returns Err without touching the vector")
     ctx.rule("R-C18-WRITERS", "fields of ArrayBuf are private and only written by ArrayBuf's own impls")
     F = ctx.facts("all")
@@ -39,7 +40,7 @@ def run(ctx):
         return
     try:
         fi_buf = field_index(F, T, "buffer")
-        fi_num = field_index(F, T, "num_elements")
+        deref_b = find_method(F, "std::ops::Deref", "deref", T)
     except AnchorMissing as e:
         ctx.violation("ANCHOR-MISSING", T, ("", 0, ""), str(e))
         return
@@ -49,7 +50,8 @@ def run(ctx):
             ctx.violation("R-C18-WRITERS", "pub-field|" + fl["name"], (adt["span"]["file"], adt["span"]["line"], T),
                           "field %s of ArrayBuf is public: the length invariant can be broken from outside" % fl["name"])
     check_writers(ctx, F, T)
-    # ---- write tracking
+
+    # ---- write tracking (the array-typed field, whatever it is called)
     def on_assign(ip_, frame, bb, stmt, st, val):
         w = st.ghost.get("c18-self")
         if w is None:
@@ -64,7 +66,14 @@ def run(ctx):
     def on_copy(ip_, frame, bb, st, dst, src):
         w = st.ghost.get("c18-self")
         if w is not None and dst.root == w and dst.steps[:1] == (("f", fi_buf),):
-            st.ghost["c18-writes"] = st.ghost.get("c18-writes", ()) + (("copy", dst.start, dst.n, src),)
+            first = None
+            if st.prove_eq0(dst.n - 1):
+                from ..vra.stdsum import slice_elem
+                try:
+                    first = slice_elem(ip_, st, src, Lin.const(0))
+                except Unsupported:
+                    first = None
+            st.ghost["c18-writes"] = st.ghost.get("c18-writes", ()) + (("copy", dst.start, dst.n, src, first),)
     ip.on_assign.append(on_assign)
     ip.on_copy.append(on_copy)
     try:
@@ -73,17 +82,41 @@ def run(ctx):
         ctx.violation("R-C18-INV", T, ("", 0, ""), "cannot infer invariant: %s" % e)
         return
     N = ip.const_param(None, "N", None)
+
+    def view_len(st, root):
+        """length of the logical content = what Deref::deref exposes: it must be buffer[0..len]; returns len (Lin) or None"""
+        saved = {k: st.ghost.get(k) for k in ("c18-self", "c18-writes")}
+        st.ghost.pop("c18-self", None)
+        try:
+            outs = ip.run_root(deref_b, {}, [VRef(root, (), False)], st)
+        except Unsupported:
+            return None
+        finally:
+            for k, v in saved.items():
+                if v is not None:
+                    st.ghost[k] = v
+        if len(outs) != 1 or outs[0][0] is not st:
+            return None
+        rv = outs[0][1]
+        if isinstance(rv, VSlice) and rv.root == root and rv.steps == (("f", fi_buf),) and st.prove_eq0(rv.start):
+            return rv.n
+        return None
+
     # the invariant itself
     for key, S in inv.parts.items():
-        obj = S.mem[("INV", 0)]
-        num = obj.elems[fi_num].lin
-        ok = S.prove_ge0(N - num) and S.prove_ge0(num)
+        st = ip.new_state()
+        obj = A.import_partition(st, S)
+        root = ip.new_oid("self")
+        st.mem[root] = obj
+        num = view_len(st, root)
+        ok = num is not None and st.prove_ge0(N - num) and st.prove_ge0(num)
         ctx.count("R-C18-INV")
         ctx.oblig(ok)
-        ctx.sample({"invariant": "0 <= num_elements <= N", "facts": [repr(f) for f in S.facts], "N": repr(N), "num_elements": repr(num)})
+        ctx.sample({"invariant": "0 <= len(deref) <= N", "facts": [repr(f) for f in S.facts], "N": repr(N), "len": repr(num)})
         if not ok:
             ctx.violation("R-C18-INV", "num<=N", (adt["span"]["file"], adt["span"]["line"], T),
-                          "num_elements <= N is not an invariant of ArrayBuf: %s" % A.inv_info[T]["partitions"])
+                          "num_elements <= N is not an invariant of ArrayBuf (length of the Deref view: %s): %s"
+                          % (num is not None and st.describe(num), A.inv_info[T]["partitions"]))
 
     def cases(body):
         inv_ = A.invariant(T)
@@ -93,10 +126,13 @@ def run(ctx):
             obj0 = A.import_partition(st, S)
             root = ip.new_oid("self")
             st.mem[root] = obj0
+            num0 = view_len(st, root)
+            if num0 is None:
+                raise AnchorMissing("Deref::deref of ArrayBuf does not expose buffer[0..len]")
             st.ghost["c18-self"] = root
             a0 = body["locals"][1]["ty"]
             for (s2, rv, args) in A.run_fn(body, st0=st, first_arg=VRef(root, (), a0.get("mut", False))):
-                out.append((obj0, s2, s2.mem[root], rv, args, root))
+                out.append((num0, s2, rv, args, root))
         return out
 
     def viol(rule, body, key, msg):
@@ -108,15 +144,32 @@ def run(ctx):
         if not cond:
             viol("R-C18-EFFECT", body, key, msg)
 
+    def one_byte_write(s2, wr, idx, byte):
+        """exactly one byte is written, at index idx, and it is `byte` (an element store or a one-element copy)"""
+        if len(wr) != 1:
+            return False
+        w = wr[0]
+        if w[0] == "elem":
+            return s2.prove_eq0(w[1] - idx) and isinstance(w[2], VInt) and s2.prove_eq0(w[2].lin - byte)
+        if w[0] == "copy":
+            from ..vra.stdsum import slice_elem
+            if not (s2.prove_eq0(w[1] - idx) and s2.prove_eq0(w[2] - 1)):
+                return False
+            e = w[4] if len(w) > 4 else None
+            return isinstance(e, VInt) and s2.prove_eq0(e.lin - byte)
+        return False
+
     try:
         # ---------------- push
         b = find_method(F, "util::Buffer", "push", T)
         n_ok = n_err = 0
-        for obj0, st1, obj1, rv, args, root in cases(b):
-            num0 = obj0.elems[fi_num].lin
+        for num0, st1, rv, args, root in cases(b):
             for s2, cls in result_class(ip, st1, rv):
-                num1 = obj1.elems[fi_num].lin
                 wr = s2.ghost.get("c18-writes", ())
+                num1 = view_len(s2, root)
+                if num1 is None:
+                    check(b, False, "view", "after push, Deref no longer exposes buffer[0..len]")
+                    continue
                 if cls == "Err":
                     n_err += 1
                     check(b, s2.prove_eq0(num0 - N), "err-iff-full", "push can fail although the buffer is not full")
@@ -125,20 +178,21 @@ def run(ctx):
                 else:
                     n_ok += 1
                     check(b, s2.prove_ge0(N - num0 - 1), "ok-iff-room", "push can succeed on a full buffer")
-                    good = len(wr) == 1 and wr[0][0] == "elem" and s2.prove_eq0(wr[0][1] - num0) and \
-                        isinstance(wr[0][2], VInt) and isinstance(args[1], VInt) and s2.prove_eq0(wr[0][2].lin - args[1].lin)
+                    good = isinstance(args[1], VInt) and one_byte_write(s2, wr, num0, args[1].lin)
                     check(b, good, "ok-write", "push must write exactly the pushed byte at index num_elements (writes: %r)" % (wr,))
                     check(b, s2.prove_eq0(num1 - num0 - 1), "ok-len", "push must increase the length by exactly 1")
         check(b, n_ok >= 1 and n_err >= 1, "both-outcomes", "push must have a success and a failure outcome")
         # ---------------- extend_from_slice
         b = find_method(F, "util::Buffer", "extend_from_slice", T)
         n_ok = n_err = 0
-        for obj0, st1, obj1, rv, args, root in cases(b):
-            num0 = obj0.elems[fi_num].lin
+        for num0, st1, rv, args, root in cases(b):
             other = args[1]
             for s2, cls in result_class(ip, st1, rv):
-                num1 = obj1.elems[fi_num].lin
                 wr = s2.ghost.get("c18-writes", ())
+                num1 = view_len(s2, root)
+                if num1 is None:
+                    check(b, False, "view", "after extend_from_slice, Deref no longer exposes buffer[0..len]")
+                    continue
                 if cls == "Err":
                     n_err += 1
                     check(b, s2.prove_ge0(num0 + other.n - N - 1), "err-iff-too-long", "extend_from_slice can fail although the bytes fit")
@@ -154,27 +208,44 @@ def run(ctx):
         check(b, n_ok >= 1 and n_err >= 1, "both-outcomes", "extend_from_slice must have a success and a failure outcome")
         # ---------------- truncate
         b = find_method(F, "util::Buffer", "truncate", T)
-        for obj0, st1, obj1, rv, args, root in cases(b):
-            num0, k, num1 = obj0.elems[fi_num].lin, args[1].lin, obj1.elems[fi_num].lin
-            ok = (st1.prove_eq0(num1 - num0) and st1.prove_ge0(k - num0)) or (st1.prove_eq0(num1 - k) and st1.prove_ge0(num0 - k))
+        for num0, st1, rv, args, root in cases(b):
+            k, num1 = args[1].lin, view_len(st1, root)
+            ok = num1 is not None and ((st1.prove_eq0(num1 - num0) and st1.prove_ge0(k - num0)) or (st1.prove_eq0(num1 - k) and st1.prove_ge0(num0 - k)))
             check(b, ok, "min", "truncate must set the length to min(length, len)")
             check(b, not st1.ghost.get("c18-writes", ()), "no-write", "truncate must not write to the buffer")
         # ---------------- clear
         b = find_method(F, "util::Buffer", "clear", T)
-        for obj0, st1, obj1, rv, args, root in cases(b):
-            check(b, st1.prove_eq0(obj1.elems[fi_num].lin), "zero", "clear must set the length to 0")
+        for num0, st1, rv, args, root in cases(b):
+            num1 = view_len(st1, root)
+            check(b, num1 is not None and st1.prove_eq0(num1), "zero", "clear must set the length to 0")
             check(b, not st1.ghost.get("c18-writes", ()), "no-write", "clear must not write to the buffer")
-        # ---------------- deref
-        b = find_method(F, "std::ops::Deref", "deref", T)
-        for obj0, st1, obj1, rv, args, root in cases(b):
-            num0 = obj0.elems[fi_num].lin
-            ok = isinstance(rv, VSlice) and rv.root == root and rv.steps == (("f", fi_buf),) and \
-                st1.prove_eq0(rv.start) and st1.prove_eq0(rv.n - num0)
+        # ---------------- deref: exposes buffer[0..len] (view_len already insists on it) and changes nothing
+        b = deref_b
+        for num0, st1, rv, args, root in cases(b):
+            ok = isinstance(rv, VSlice) and rv.root == root and rv.steps == (("f", fi_buf),) and st1.prove_eq0(rv.start) and st1.prove_eq0(rv.n - num0)
             check(b, ok, "prefix", "deref must expose exactly buffer[0..num_elements] (got %r)" % (rv,))
-            ctx.sample({"deref_returns": repr(rv), "num_elements": repr(num0)})
+            check(b, not st1.ghost.get("c18-writes", ()), "no-write", "deref must not write to the buffer")
+            ctx.sample({"deref_returns": repr(rv), "len": repr(num0)})
     except (AnchorMissing, Unsupported) as e:
         ctx.violation("ANCHOR-MISSING", "ArrayBuf-methods", ("", 0, ""), str(e))
-    # ---------------- views
+    # ---------------- views: private functions proved to return the Deref view count as the view
+    views = {deref_b["def"]}
+    for vb in F.bodies.values():
+        if (vb.get("impl_self_ty") or {}).get("def") != T or vb["arg_count"] != 1 or vb["kind"] == "Closure" or vb["def"] in views:
+            continue
+        rt = vb["locals"][0]["ty"]
+        if not (rt.get("k") == "ref" and (rt.get("to") or {}).get("k") == "slice"):
+            continue
+        try:
+            good = True
+            for num0, st1, rv, args, root in cases(vb):
+                if not (isinstance(rv, VSlice) and rv.root == root and rv.steps == (("f", fi_buf),) and st1.prove_eq0(rv.start)
+                        and st1.prove_eq0(rv.n - num0) and not st1.ghost.get("c18-writes", ())):
+                    good = False
+            if good:
+                views.add(vb["def"])
+        except (AnchorMissing, Unsupported):
+            pass
     for tr, nm in (("std::cmp::PartialEq", "eq"), ("std::fmt::Debug", "fmt")):
         try:
             b = find_method(F, tr, nm, T)
@@ -183,18 +254,23 @@ def run(ctx):
             continue
         ctx.count("R-C18-VIEW")
         direct = field_accesses(b, T)
-        derefs = [t for _bb, t in CFG(b).calls() if any(n.endswith("Deref::deref") for n in callee_names(t))]
-        if direct or not derefs:
-            viol("R-C18-VIEW", b, "fields", "%s reads ArrayBuf fields directly (%s) instead of going through Deref" % (b["def"], direct))
-    check_from_iter(ctx, F, A)
+        uses_view = False
+        for _bb, t in CFG(b).calls():
+            ns = callee_names(t)
+            if any(n.endswith("Deref::deref") or n in views for n in ns):
+                uses_view = True
+        if direct or not uses_view:
+            viol("R-C18-VIEW", b, "fields", "%s reads ArrayBuf fields directly (%s) instead of going through the Deref view" % (b["def"], direct))
+    check_from_iter(ctx, F, A, fi_buf, view_len)
     check_vec(ctx, F, A)
-    ctx.cov.update({"invariant": A.inv_info.get(T), "capacity": "symbolic const generic N in [0, isize::MAX]"})
+    ctx.cov.update({"invariant": A.inv_info.get(T), "capacity": "symbolic const generic N in [0, isize::MAX]", "view_functions": sorted(views)})
     ctx.assumptions = [ASSUMPTIONS[k] for k in ("A1", "A2", "A3")]
     ctx.explanation = (
-        "ArrayBuf<N> is analysed for a symbolic capacity N. Its invariant num_elements <= N is inferred as a least fixpoint over all "
-        "mutating methods and proved inductive. Each operation is then analysed from the invariant and its abstract outcomes (result, "
-        "written index/range and value, new length as linear facts over N, num_elements and the arguments) are compared with the "
-        "specification table of an ideal bounded vector; equality/Debug must go through Deref; the Vec impl must reserve before writing.")
+        "ArrayBuf<N> is analysed for a symbolic capacity N. Its logical length is what Deref::deref exposes (buffer[0..len]); "
+        "0 <= len <= N is inferred as a least fixpoint over all mutating methods and proved inductive. Each operation is then analysed "
+        "from the invariant and its abstract outcomes (result, written index/range and value, new length as linear facts over N, len and "
+        "the arguments) are compared with the specification table of an ideal bounded vector; equality/Debug must go through the view; "
+        "FromIterator writes each fetched item once at the end; the Vec impl must reserve before writing.")
 
 
 def field_accesses(body, tdef):
@@ -270,31 +346,99 @@ def check_writers(ctx, F, tdef):
                           "fields %s of %s are written outside its own impls" % (sorted(set(w)), tdef))
 
 
-def check_from_iter(ctx, F, A):
+def check_from_iter(ctx, F, A, fi_buf, view_len):
+    """FromIterator, as a monitor in the abstract memory: every item fetched from the (abstract) iterator is written exactly once,
+    at the index equal to the number of items written so far, before the next one is fetched; nothing else is written."""
+    ip = A.ip
     try:
         b = find_method(F, "std::iter::FromIterator", "from_iter", T)
     except AnchorMissing as e:
         ctx.violation("ANCHOR-MISSING", "from_iter", ("", 0, ""), str(e))
         return
-    cfg = CFG(b)
-    loops = cfg.loops()
+    G_CNT, G_PEND = ("G", "c18-fi-count"), ("G", "c18-fi-pending")
+
+    def bad(st, code):
+        st.ghost["c18-fi-bad"] = max(st.ghost.get("c18-fi-bad", 0), code)
+
+    def on_res(ip_, frame, bb, t, callee, args, outs):
+        if not (callee.get("trait") == "std::iter::Iterator" and callee.get("method") == "next"
+                and (callee.get("self_ty") or {}).get("k") in ("param", "alias", "other", "deep")):
+            return
+        new = []
+        for (s2, rv) in outs:
+            if G_CNT not in s2.mem or not isinstance(rv, VEnum):
+                new.append((s2, rv))
+                continue
+            if s2.const_of(s2.mem[G_PEND].lin) != 0:
+                bad(s2, 1)
+            for s3, var, pay in split_enum(ip_, s2, rv, "item"):
+                if var == 1:
+                    s3.mem[G_PEND] = cint(1, 8, False)
+                    s3.ghost["c18-fi-item"] = pay[0]
+                new.append((s3, VEnum(rv.defn, Lin.const(var), {var: pay})))
+        outs[:] = new
+
+    def note_write(st, idx, val_lin):
+        if G_CNT not in st.mem:
+            return
+        item = st.ghost.get("c18-fi-item")
+        if st.const_of(st.mem[G_PEND].lin) != 1 or not isinstance(item, VInt) or val_lin is None or not st.prove_eq0(val_lin - item.lin) \
+                or not st.prove_eq0(idx - st.mem[G_CNT].lin):
+            bad(st, 2)
+        st.mem[G_PEND] = cint(0, 8, False)
+        st.mem[G_CNT] = VInt(st.mem[G_CNT].lin + 1, 64, False)
+
+    def on_assign(ip_, frame, bb, stmt, st, val):
+        if G_CNT not in st.mem:
+            return
+        try:
+            a = ip_.resolve(frame, stmt["place"], st)
+        except Unsupported:
+            return
+        if len(a.steps) >= 2 and a.steps[-2] == ("f", fi_buf) and a.steps[-1][0] == "ix":
+            v = st.mem.get(a.root)
+            if isinstance(v, VAgg) and v.defn == T or True:
+                note_write(st, a.steps[-1][1], val.lin if isinstance(val, VInt) else None)
+
+    def on_copy(ip_, frame, bb, st, dst, src):
+        if G_CNT not in st.mem or not dst.steps or dst.steps[-1] != ("f", fi_buf):
+            return
+        from ..vra.stdsum import slice_elem
+        e = None
+        if st.prove_eq0(dst.n - 1):
+            try:
+                e = slice_elem(ip_, st, src, Lin.const(0))
+            except Unsupported:
+                e = None
+        if e is None:
+            bad(st, 2)
+            return
+        note_write(st, dst.start, e.lin if isinstance(e, VInt) else None)
+    ip.on_call_result.append(on_res)
+    ip.on_assign.append(on_assign)
+    ip.on_copy.append(on_copy)
+    try:
+        st0 = ip.new_state()
+        st0.mem[G_CNT] = cint(0, 64, False)
+        st0.mem[G_PEND] = cint(0, 8, False)
+        outs = A.run_fn(b, st0=st0)
+    finally:
+        ip.on_call_result.remove(on_res)
+        ip.on_assign.remove(on_assign)
+        ip.on_copy.remove(on_copy)
     ctx.count("R-C18-FROMITER")
-    ok = False
-    for head, lbody in loops.items():
-        nexts = [n for n in lbody if b["blocks"][n]["term"]["k"] == "call" and
-                 any(x.endswith("Iterator::next") for x in callee_names(b["blocks"][n]["term"]))]
-        pushes = [n for n in lbody if b["blocks"][n]["term"]["k"] == "call" and
-                  any(x.endswith("util::Buffer>::push") or x == "util::Buffer::push" for x in callee_names(b["blocks"][n]["term"]))]
-        if len(nexts) == 1 and len(pushes) == 1:
-            # every cycle passes the push; the pushed operand is the item of this iteration
-            cyc_without_push = any(head in cfg.reachable_from(s, avoid={pushes[0]}) for s in cfg.succ[head] if s in lbody and s != pushes[0])
-            # the Some-edge of next must lead to the push: the None-edge leaves the loop
-            if not cyc_without_push and item_flows(b, nexts[0], pushes[0]):
-                ok = True
+    ok = bool(outs)
+    why = "no path returns"
+    for (s1, rv, _a) in outs:
+        code = s1.ghost.get("c18-fi-bad", 0)
+        if code or s1.const_of(s1.mem[G_PEND].lin) != 0:
+            ok = False
+            why = {1: "an item is fetched before the previous one was written", 2: "a write is not the fetched item at the next free index"}.get(
+                code, "the last fetched item is not written")
     ctx.oblig(ok)
     if not ok:
         ctx.violation("R-C18-FROMITER", "loop", (b["span"]["file"], b["span"]["line"], b["def"]),
-                      "from_iter must push every item of the iterator exactly once per iteration, unmodified")
+                      "from_iter must push every item of the iterator exactly once per iteration, unmodified (%s)" % why)
 
 
 def item_flows(b, next_bb, push_bb):
